@@ -32,10 +32,13 @@ func VerifHarness_C03_delivery() {
 	// tx A: relevant or not; tx B: relevant or not, spending A's output 0 or an outpoint of the universe
 	relA := verifrt.Choose("a.relevant", 2) == 1
 	relB := verifrt.Choose("b.relevant", 2) == 1
-	chained := verifrt.Choose("b.spends-a", 2) == 1
+	relation := verifrt.Choose("b.relation-to-a", 3) // 0 independent, 1 spends a's output, 2 double spends a's input
+	chained := relation == 1
 	a := vkTx(30, []int{0}, relA)
 	var b *wire.MsgTx
-	if chained {
+	if relation == 2 {
+		b = vkTx(31, []int{0, 2}, relB) // outpoint 0 is a's input as well
+	} else if chained {
 		b = wire.NewMsgTx(1)
 		op := wire.OutPoint{Hash: *a.TxHash(), Index: 0}
 		b.AddTxIn(wire.NewTxIn(&op, bitcoin.Script{0x01, 0x31}))
